@@ -50,19 +50,21 @@ package smtp
 //@   prop C19 C05
 //@   requires r != nil && r.R != nil
 //@   requires r.curLineLength >= 0 && r.LineLimit >= 0 && r.LineLimit < 9223372036854775807
-//@   modifies r.curLineLength, b[*]
+//@   modifies r.curLineLength, r.rest, b[*]
 //@   ensures count: 0 <= n && n <= len(b)
 //@   ensures stable: r.LineLimit == old(r.LineLimit) && r.curLineLength >= 0
 //@   ensures sticky: old(r.curLineLength) > r.LineLimit && r.LineLimit > 0 ==> err == ErrTooLongLine && n == 0
-//@   ensures refusal-justified: err == ErrTooLongLine ==> r.LineLimit > 0 && n == 0 && (old(r.curLineLength) > r.LineLimit || exists k :: 1 <= k && k <= len(b) && lrun(elemsOf(b), offOf(b), old(r.curLineLength), k) > r.LineLimit witness rangeindex + 2)
-//@   ensures refused-state: err == ErrTooLongLine ==> r.curLineLength > r.LineLimit
-//@   ensures tracks-run: err == nil && r.LineLimit > 0 ==> r.curLineLength == lrun(elemsOf(b), offOf(b), old(r.curLineLength), n)
+//@   ensures refusal-justified: err == ErrTooLongLine ==> r.LineLimit > 0 && n == 0 && old(r.curLineLength) > r.LineLimit
+//@   ensures limit-passed-only-by-a-too-long-run: r.LineLimit > 0 && r.curLineLength > r.LineLimit && old(r.curLineLength) <= r.LineLimit ==> err == nil && (exists k :: 1 <= k && k <= len(b) && lrun(elemsOf(b), offOf(b), old(r.curLineLength), k) > r.LineLimit witness rangeindex + 2)
+//@   ensures nothing-of-the-too-long-line-is-handed-out: r.LineLimit > 0 && r.curLineLength > r.LineLimit && old(r.curLineLength) <= r.LineLimit ==> n == 0 || b[n - 1] == 10
+//@   ensures tracks-run: err == nil && r.LineLimit > 0 && r.curLineLength <= r.LineLimit ==> r.curLineLength == lrun(elemsOf(b), offOf(b), old(r.curLineLength), n)
 //@   ensures delivered-within-limit: err == nil && r.LineLimit > 0 ==> forall k :: 0 <= k && k <= n ==> lrun(elemsOf(b), offOf(b), old(r.curLineLength), k) <= r.LineLimit
 //@   ensures unlimited-transparent: r.LineLimit == 0 ==> r.curLineLength == old(r.curLineLength) && err != ErrTooLongLine
 //@   loop 1:
 //@     invariant -1 <= rangeindex && rangeindex < n && 0 <= n && n <= len(b)
 //@     invariant r.LineLimit == old(r.LineLimit) && r.LineLimit > 0 && old(r.curLineLength) <= r.LineLimit
 //@     invariant 0 <= r.curLineLength && r.curLineLength <= r.LineLimit
+//@     invariant 0 <= lineStart && lineStart <= rangeindex + 1 && (lineStart == 0 || b[lineStart - 1] == 10)
 //@     invariant run: r.curLineLength == lrun(elemsOf(b), offOf(b), old(r.curLineLength), rangeindex + 1)
 //@     invariant within: forall k :: 0 <= k && k <= rangeindex + 1 ==> lrun(elemsOf(b), offOf(b), old(r.curLineLength), k) <= r.LineLimit
 
@@ -450,24 +452,24 @@ package smtp
 //@ contract (*Conn).discardChunk(c, size)
 //@   prop C05 C19
 //@   requires connWF(c) && 0 <= size && size <= 4294967295
-//@   modifies c.lineLimitReader.LineLimit, c.text.R.pos, c.text.R.iofail, c.text.R.unreadable
+//@   modifies c.lineLimitReader.LineLimit, c.lineLimitReader.curLineLength, c.text.R.pos, c.text.R.iofail, c.text.R.unreadable
 //@   ensures @C05 chunk-consumed: c.text.R.pos == old(c.text.R.pos) + size || c.text.R.iofail
 //@   ensures @C19 limit-restored: c.lineLimitReader.LineLimit == c.server.MaxLineLength
 //@   ensures c.text.R.pos >= old(c.text.R.pos)
-//@   before io.Copy: @C05,C19,C04 no-line-limit-on-chunk-octets: c.lineLimitReader.LineLimit == 0
+//@   before io.Copy: @C05,C19,C04 no-line-limit-on-chunk-octets: c.lineLimitReader.LineLimit == 0 && c.lineLimitReader.curLineLength == 0
 
 //@ contract (*Conn).handleBdat(c, arg)
 //@   prop C03 C04 C05 C06 C07 C08 C19
 //@   nooverflow Conn.bytesReceived + size: with MaxMessageBytes == 0 this needs fewer than 2^63 octets in one transaction
 //@   requires connInv(c) && !c.closed && c.server.ErrorLog != nil
 //@   requires c.lineLimitReader.LineLimit == c.server.MaxLineLength
-//@   modifies c.bdatPipe, c.bdatStatus, c.dataResult, c.bytesReceived, c.fromReceived, c.recipients, c.replies, c.finals, c.lastCode, c.cbReset, c.closed, c.session, c.cbLogout, c.bdatPipe.state, c.bdatPipe.written, c.session.loggedOut, c.text.R.pos, c.text.R.iofail, c.text.R.unreadable, c.lineLimitReader.LineLimit, *chan
+//@   modifies c.bdatPipe, c.bdatStatus, c.dataResult, c.bytesReceived, c.fromReceived, c.recipients, c.replies, c.finals, c.lastCode, c.cbReset, c.closed, c.session, c.cbLogout, c.bdatPipe.state, c.bdatPipe.written, c.session.loggedOut, c.text.R.pos, c.text.R.iofail, c.text.R.unreadable, c.lineLimitReader.LineLimit, c.lineLimitReader.curLineLength, *chan
 //@   onrecv errOK($v)
 //@   recv 1: @C04 result-of-this-transfer: $ch == c.dataResult
 //@   recv 2: @C13 status-of-the-recipient-being-answered: $ch == c.bdatStatus.status[rangeindex + 1]
 //@   before (*io.PipeWriter).Close: @C07,C05 clean-eof-only-after-complete-last-chunk: last && lrOf(chunk).N == 0
 //@   ensures inv: connInv(c)
-//@   before io.Copy: @C05,C19,C04 no-line-limit-on-chunk-octets: c.lineLimitReader.LineLimit == 0
+//@   before io.Copy: @C05,C19,C04 no-line-limit-on-chunk-octets: c.lineLimitReader.LineLimit == 0 && c.lineLimitReader.curLineLength == 0
 //@   ensures @C19,C05 line-limit-restored: c.lineLimitReader.LineLimit == c.server.MaxLineLength && c.lineLimitReader == old(c.lineLimitReader)
 //@   ensures @C05 framing: bdatDeclaredOK(arg) ==> c.text.R.pos == old(c.text.R.pos) + bdatDeclared(arg) || c.text.R.iofail
 //@   ensures @C05 nothing-read-for-malformed-command: !bdatDeclaredOK(arg) ==> c.text.R.pos == old(c.text.R.pos)
@@ -491,7 +493,7 @@ package smtp
 //@   prop C03 C04 C08 C19
 //@   requires connInv(c) && !c.closed
 //@   requires c.lineLimitReader.LineLimit == c.server.MaxLineLength && c.server.ErrorLog != nil
-//@   modifies c.*, c.bdatPipe.state, c.bdatPipe.written, c.session.loggedOut, c.text.R.pos, c.text.R.iofail, c.text.R.unreadable, c.lineLimitReader.LineLimit, *chan, c.recipients[**]
+//@   modifies c.*, c.bdatPipe.state, c.bdatPipe.written, c.session.loggedOut, c.text.R.pos, c.text.R.iofail, c.text.R.unreadable, c.lineLimitReader.LineLimit, c.lineLimitReader.curLineLength, *chan, c.recipients[**]
 //@   ensures server-kept: c.server == old(c.server)
 //@   ensures inv: connInv(c)
 //@   ensures @C19 line-limit-active-after-every-command: c.text == old(c.text) ==> c.lineLimitReader.LineLimit == c.server.MaxLineLength
@@ -511,7 +513,7 @@ package smtp
 //@   requires s != nil && c != nil && c.server == s && connInv(c) && !c.closed && s.ErrorLog != nil && replyText(s.Domain)
 //@   requires c.session == nil && c.cbNew == c.cbLogout && s.conns != nil
 //@   requires c.lineLimitReader.LineLimit == s.MaxLineLength
-//@   modifies c.*, s.conns[*], *.Session.loggedOut, *.io.PipeWriter.state, *.io.PipeWriter.written, *.bufio.Reader.pos, *.bufio.Reader.iofail, *.bufio.Reader.unreadable, *.lineLimitReader.LineLimit, *chan, *elems string
+//@   modifies c.*, s.conns[*], *.Session.loggedOut, *.io.PipeWriter.state, *.io.PipeWriter.written, *.bufio.Reader.pos, *.bufio.Reader.iofail, *.bufio.Reader.unreadable, *.lineLimitReader.LineLimit, *.lineLimitReader.curLineLength, *chan, *elems string
 //@   ensures @C08 closed-at-exit: c.closed && c.session == nil
 //@   ensures @C08 every-session-logged-out: c.cbNew == c.cbLogout
 //@   ensures @C07 no-transfer-left-open: c.bdatPipe == nil
@@ -829,6 +831,7 @@ package smtp
 //@   requires connWF(c) && c.session != nil && sessOK(c) && sessCur(c.session) && c.fromReceived && len(c.recipients) >= 1 && r != nil && (c.server.LMTP ==> status != nil) && c.server.ErrorLog != nil
 //@   requires @C04 result-channel-of-this-transfer-is-new-and-empty: dataResult != nil && len(dataResult) == 0 && dataResult == c.dataResult
 //@   requires @C13 collector-and-recipients-of-this-transfer: status == c.bdatStatus && recipients == c.recipients
+//@   requires @C08,C20 session-of-this-transfer: session == c.session
 //@   modifies c.cbData, *chan
 //@   ensures @C03 one-data-callback-per-transfer: c.cbData == old(c.cbData) + 1
 
